@@ -23,7 +23,9 @@ RULE = ('source kind {constant string, here-document, file, program output} x mo
         '(none, identity, char-case, filter constant true, replace, run cat, strip variants, filter -line-nums 2:, pairs of these) x every sequence of '
         '<= 2 (thorough 3) access events from {freeze, as_str, as_lines fully, as_lines first line only, as_lines in two steps, as_file, write_to} x '
         'mem_buff_size in {1, 2, |T|, |T|+1, 8192} x texts of length <= 2 (thorough 3) over {a, newline, CR, FF, NEL, LS} plus CR LF texts, texts around '
-        'the buffer size and without final newline; states = (representation class, frozen, may-depend) after each event')
+        'the buffer size and without final newline; chains include replacements that insert / remove line breaks followed by line-oriented stages; '
+        'concatenated sources: every cut of a text (length <= 2, thorough 3, over {a, newline}, plus CR LF / FF samples) into 2..4 parts x 13 patterns of part kinds '
+        '{constant, file, program output} x frozen first {no, yes} x event sequences x buffer {1, |T|+1}; states = (representation class, frozen, may-depend) after each event')
 ASSUMPTIONS = [
     'reference text: the input transformed by the C05 reference evaluator; lines are the maximal pieces ending in "\\n"',
     'files are written and read back by the harness without newline translation',
